@@ -521,7 +521,7 @@ func (w *cWorld) checkLatency(what string, d time.Duration) {
 }
 
 func (w *cWorld) stats() *statsDoc {
-	resp := httpDo(w.rc, "GET", w.http, "/stats?format=json", nil, nil, nil, 60*time.Second)
+	resp := httpDo(w.rc, "GET", w.http, "/stats?format=json&include_mem=false", nil, nil, nil, 60*time.Second)
 	if resp.Err != nil || resp.Status != 200 {
 		w.rc.Violate("C16", "nsqd-unresponsive", "/stats: %d %v", resp.Status, resp.Err)
 		return &statsDoc{}
